@@ -141,8 +141,8 @@ func c37GenSeq(t *rapid.T, depth int, w *c37Out) {
 		case k < 72:
 			w.emit(",")
 		case k < 73:
-			w.sb.WriteString("//")
-			w.slash = true
+			w.emit("/")
+			w.emit("/") // a repeated separator only when w.double
 		case k < 74:
 			w.emit("***")
 		default:
@@ -153,14 +153,39 @@ func c37GenSeq(t *rapid.T, depth int, w *c37Out) {
 			before, after := w.slash, false
 			w.sb.WriteString("{")
 			alts := rapid.IntRange(1, 4).Draw(t, "alts")
+			prev := ""
 			for a := 0; a < alts; a++ {
 				if a > 0 {
 					w.sb.WriteString(",")
 				}
 				w.slash = before
-				if rapid.IntRange(0, 5).Draw(t, "emptyalt") != 0 {
+				start := w.sb.Len()
+				switch k := rapid.IntRange(0, 11).Draw(t, "altkind"); {
+				case k < 2:
+					// empty alternative
+				case k < 5 && a > 0 && prev != "":
+					// a near copy of the previous alternative: identical (the
+					// documented optimisation removes it), or differing at one end
+					alt := prev
+					last := alt[len(alt)-1]
+					switch rapid.IntRange(0, 3).Draw(t, "nearcopy") {
+					case 1:
+						alt += rapid.SampledFrom([]string{"x", "y", "foo", "*"}).Draw(t, "append")
+					case 2:
+						if (last >= 'a' && last <= 'z') && !strings.HasSuffix(alt, `\`+string(last)) {
+							alt = alt[:len(alt)-1] + rapid.SampledFrom([]string{"y", "z", "q"}).Draw(t, "replace")
+						}
+					case 3:
+						if !strings.HasPrefix(alt, "/") {
+							alt = rapid.SampledFrom([]string{"x", "y", "b"}).Draw(t, "prepend") + alt
+						}
+					}
+					w.sb.WriteString(alt)
+					w.slash = strings.HasSuffix(alt, "/")
+				default:
 					c37GenSeq(t, depth+1, w)
 				}
+				prev = w.sb.String()[start:]
 				after = after || w.slash
 			}
 			w.sb.WriteString("}")
@@ -185,6 +210,29 @@ func c37GenValidish(t *rapid.T) string {
 func c37GenBlowup(t *rapid.T) string {
 	var sb strings.Builder
 	sb.WriteString("/foo/")
+	if rapid.Bool().Draw(t, "exact") {
+		// group sizes whose product sits exactly on or next to the limit
+		factors := rapid.SampledFrom([][]int{
+			{10, 10, 10}, {8, 125}, {2, 2, 2, 5, 5, 5}, {1000}, {2, 500}, {4, 250}, {7, 11, 13}, {1001}, {3, 333}, {27, 37}, {999},
+			{2, 501}, {3, 334}, {2, 2, 2, 2, 2, 2, 2, 2, 2, 2}, {5, 200}, {25, 40}, {1, 1000}, {31, 32}, {10, 100},
+		}).Draw(t, "factors")
+		letter := 0
+		for _, f := range factors {
+			sb.WriteString("{")
+			for i := 0; i < f; i++ {
+				if i > 0 {
+					sb.WriteString(",")
+				}
+				sb.WriteString(fmt.Sprintf("%c%d", 'a'+letter%26, letter/26))
+				letter++
+			}
+			sb.WriteString("}")
+			if rapid.Bool().Draw(t, "sep") {
+				sb.WriteString("/")
+			}
+		}
+		return sb.String()
+	}
 	groups := rapid.IntRange(2, 10).Draw(t, "groups")
 	letter := 0
 	for g := 0; g < groups; g++ {
@@ -378,8 +426,10 @@ func c37GenMatchCase(t *rapid.T) c37MatchCase {
 //	    if v matches P (P without trailing '/') then v matches P+"/"
 //	T3 a pattern without wildcards matches exactly its own text, and that text
 //	    followed by '/' when the pattern has no trailing '/' ("/foo match /foo/")
-//	T4 "/foo/**" matches "/foo" and "/foo/": a pattern X+"/**" matches whatever
-//	    X matches
+//	T4 for a wildcard-free X: X+"/**" matches X, X+"/" and everything below
+//	    ("/foo/** ... match /foo and /foo/"), X+"/**/" matches X+"/" and every
+//	    path below that ends in '/' ("/foo/**/ not match /foo"), as tabulated in
+//	    TestPathPatternMatches for /home/test/Documents/**[/]
 func c37SlashLaws(v, path string, got bool) error {
 	pSlash := strings.HasSuffix(path, "/")
 	vSlash := strings.HasSuffix(v, "/")
@@ -469,8 +519,10 @@ func c37Attribute(pattern string, exps []string, path string, mOrig, mVar bool) 
 		}
 		return verifkit.Violatef("%s; OR over raw expansions=%v", msg, mExp)
 	}
-	// mOrig == mExp != mVar: a rendered variant matches differently from the raw
-	// expansion it was rendered from.
+	// mOrig == mExp != mVar: some rendered variant matches differently from the
+	// raw expansion it spells.  Every expansion that shows the discrepancy in the
+	// observed direction must be a recorded defect.
+	var known error
 	for _, e := range exps {
 		pv, err := parsePatternVariant(e)
 		if err != nil {
@@ -479,14 +531,19 @@ func c37Attribute(pattern string, exps []string, path string, mOrig, mVar bool) 
 		n := pv.String()
 		me, _ := PathPatternMatches(e, path)
 		mn, _ := PathPatternMatches(n, path)
-		if me == mn {
+		if me != mExp || mn != mVar {
 			continue
 		}
 		fp, diag := c37NormalisationDefect(e, n, path, me, mn)
-		if fp != "" {
-			return verifkit.Knownf(fp, "%s (expansion %q is rendered as %q which matches differently: %s)", msg, e, n, diag)
+		if fp == "" {
+			return verifkit.Violatef("%s; expansion %q matches=%v, rendered as %q matches=%v; %s", msg, e, me, n, mn, diag)
 		}
-		return verifkit.Violatef("%s; expansion %q matches=%v, rendered as %q matches=%v; %s", msg, e, me, n, mn, diag)
+		if known == nil {
+			known = verifkit.Knownf(fp, "%s (expansion %q is rendered as %q which matches differently: %s)", msg, e, n, diag)
+		}
+	}
+	if known != nil {
+		return known
 	}
 	return verifkit.Violatef("%s; OR over raw expansions=%v, no single expansion explains it", msg, mExp)
 }
